@@ -493,7 +493,16 @@ fn str88591<const N: usize>(s: &str) -> String {
 fn astr<const N: usize>(s: &str) -> String {
     let v = ArrayString::<N>::from(s);
     let st: &str = &v;
-    format!("{} {}", hex(st.as_bytes()), if std::str::from_utf8(st.as_bytes()).is_ok() { "valid" } else { "INVALID" })
+    // the type's other constructors must agree with From<&str>: FromIterator<char>, and try_push one by one
+    let it: ArrayString<N> = s.chars().collect();
+    let mut tp = ArrayString::<N>::new();
+    for c in s.chars() {
+        if tp.try_push(c).is_err() {
+            break;
+        }
+    }
+    let same = it == v && tp == v && v.as_ref() == st;
+    format!("{} {}", hex(st.as_bytes()), if std::str::from_utf8(st.as_bytes()).is_ok() && same { "valid" } else if same { "INVALID" } else { "CONSTRUCTORS-DISAGREE" })
 }
 
 pub fn op_str88591(n: usize, cps: &[&str]) -> String {
